@@ -140,7 +140,8 @@ Section Search.
     nth (rargmax lp) lh 0.
 End Search.
 
-(* ---- evaluation tactics for generated goal files ----
+(* ---- evaluation tactics for generated goal files (pdf; the cdf tactic needs
+        two small lemmas and lives in Proofs/KdeProofs.v) ----
    The list part of the model (sorting, region look-up, slice) is evaluated by
    vm_compute inside Coq; what remains is a closed real expression that
    coq-interval encloses. *)
@@ -166,18 +167,4 @@ Ltac kde_lists :=
 Ltac kde_pdf_goal :=
   unfold pdf_code_at, pdf_exact_at; kde_lists;
   cbv [kde_pdf ksum kernel kde_norm fold_right Q2R Qnum Qden];
-  interval with (i_prec 90).
-
-Ltac rint_intros :=
-  repeat match goal with
-  | |- context [RInt ?f ?a ?b] =>
-      let H := fresh "HI" in
-      integral_intro (RInt f a b) with (i_prec 70, i_relwidth 40) as H;
-      revert H; generalize (RInt f a b); intros ? H
-  end.
-
-Ltac kde_cdf_goal :=
-  unfold cdf_code_at, cdf_exact_at; kde_lists;
-  cbv [kde_cdf csum Phi phi fold_right Q2R Qnum Qden];
-  rint_intros;
   interval with (i_prec 90).
